@@ -260,7 +260,7 @@ func checkDec(rt *regType, bz []byte) (d1 decRes, m1 string, verdict string) {
 			return d1, m1, "VIOL:dec-panic fast decoder panicked: " + short(d2.pmsg)
 		}
 		if (d1.err == nil) != (d2.err == nil) {
-			cls := classifyDecDivergence(rt, bz, d1.err == nil, m1)
+			cls := classifyDecDivergence(rt, bz, d1.err == nil, m1, d1.pv)
 			if cls == "" {
 				cls = "dec-accept"
 			}
@@ -269,7 +269,7 @@ func checkDec(rt *regType, bz []byte) (d1 decRes, m1 string, verdict string) {
 		if d1.err == nil {
 			m2 := mvOrErr(d2.pv, info)
 			if m1 != m2 {
-				cls := classifyDecDivergence(rt, bz, true, m1)
+				cls := classifyDecDivergence(rt, bz, true, m1, d1.pv)
 				if cls == "" {
 					cls = "dec-value"
 				}
@@ -405,8 +405,11 @@ func depadVariants(bz []byte) [][]byte {
 
 // classifyDecDivergence names the recorded family a disagreement on bz belongs
 // to, or "" if none of the repairs reconciles the decoders.
-func classifyDecDivergence(rt *regType, bz []byte, reflectOK bool, reflectMV string) string {
+func classifyDecDivergence(rt *regType, bz []byte, reflectOK bool, reflectMV string, reflectPV reflect.Value) string {
 	if len(bz) == 0 && rt.Info.IsAminoMarshaler {
+		return "dec-empty-marshaler"
+	}
+	if reflectOK && hasZeroMarshalerElem(reflectPV.Elem(), rt.Info) {
 		return "dec-empty-marshaler"
 	}
 	for _, v := range depadVariants(bz) {
@@ -425,6 +428,76 @@ func classifyDecDivergence(rt *regType, bz []byte, reflectOK bool, reflectMV str
 		}
 	}
 	return ""
+}
+
+// hasZeroMarshalerElem: the (reflect-decoded) value holds a LIST ELEMENT of an
+// AminoMarshaler type that is still the Go zero value although the zero value's
+// repr is not empty — i.e. the wire carried an empty repr (0x00) for it and the
+// reflect decoder did not call UnmarshalAmino (binary_decode.go: the 0x00
+// special case of the list decoders).
+func hasZeroMarshalerElem(v reflect.Value, info *amino.TypeInfo) bool {
+	if v.Kind() == reflect.Pointer {
+		if v.IsNil() {
+			return false
+		}
+		v = v.Elem()
+	}
+	if info.IsAminoMarshaler {
+		return false
+	}
+	switch info.Type.Kind() {
+	case reflect.Interface:
+		if v.IsNil() {
+			return false
+		}
+		cv := v.Elem()
+		if cv.Kind() == reflect.Pointer {
+			if cv.IsNil() {
+				return false
+			}
+			cv = cv.Elem()
+		}
+		cinfo, err := cdc.GetTypeInfo(cv.Type())
+		if err != nil {
+			return false
+		}
+		return hasZeroMarshalerElem(cv, cinfo)
+	case reflect.Struct:
+		if info.Type == timeType {
+			return false
+		}
+		for _, f := range info.Fields {
+			if hasZeroMarshalerElem(v.Field(f.Index), f.TypeInfo) {
+				return true
+			}
+		}
+	case reflect.Slice, reflect.Array:
+		if info.Type.Elem().Kind() == reflect.Uint8 {
+			return false
+		}
+		for i := 0; i < v.Len(); i++ {
+			ev := v.Index(i)
+			if ev.Kind() == reflect.Pointer {
+				if ev.IsNil() {
+					continue
+				}
+				ev = ev.Elem()
+			}
+			if info.Elem.IsAminoMarshaler {
+				if ev.IsZero() {
+					var repr reflect.Value
+					if p, _ := safely(func() { repr = ev.MethodByName("MarshalAmino").Call(nil)[0] }); !p && !repr.IsZero() {
+						return true
+					}
+				}
+				continue
+			}
+			if hasZeroMarshalerElem(ev, info.Elem) {
+				return true
+			}
+		}
+	}
+	return false
 }
 
 func hexOrE(b []byte) string {
